@@ -10,8 +10,19 @@ TEXT = {
     "C20": dict(level="Bounded symbolic verification over all dates of years 1..9998: zodiac sign table/contiguity and every weekday/fixed-date festival key reported exactly on its rule's day.", note=_note),
 }
 
+_py = " Per-year harnesses: the civil year is a concrete parameter (its term/new-moon tables are computed natively from the current /repo), month cubed, day/hour/minute/second symbolic: one verdict covers every second of the year; the year list actually decided is in the evidence file."
+TEXT.update({
+    "C01": dict(level="Bounded symbolic verification per listed year: GetLunar -> NewLunar round trip with identical pillar fields, lunar date = position in the year's month table (JDN identity), lunar stepping = civil stepping for |n|<=35 (quick) / 400 (thorough)." + _py, note=_note),
+    "C03": dict(level="Bounded symbolic verification per listed year: prev/next term (all/jie/qi, instant and whole-day variants), today's term and current-term accessors equal a tuple-comparison spec over the year's 31 entries for every second of the year, including the term instants themselves." + _py, note=_note + " The numerical content of the term instants (ephemeris) is outside the claim."),
+    "C06": dict(level="Per listed lunar year: structural clauses evaluated on the real table (concrete evaluation inside the executor); month navigation Next(n) for symbolic n (|n|<=30 quick / 150 thorough) from every month: non-nil, direction, distance, inverse and composition with +1, decided by the solver." + _py, note=_note),
+    "C13": dict(level="Bounded symbolic verification per listed year: nine-nines, dog days, pentads, Cold Food, She days and New Year's Eve equal a JDN/stem spec for every day of the year." + _py, note=_note),
+    "C17": dict(level="Bounded symbolic verification per listed year: Taoist/Buddhist year offsets, round trips through NewTao/NewFoto, and every day-class predicate equals its table/stem definition for every moment of the year." + _py, note=_note),
+})
+TEXT["C05"]["level"] += " Year and month pillars (three year conventions, two month conventions) are decided per listed year against a spec computed from the year's real term table by tuple comparison." + _py
+TEXT["C07"]["level"] += " NewLunar/NewTao/NewFoto accept exactly the (month, day, time) tuples of the listed lunar years' own tables (month cubed -13..13, day and time symbolic)."
+
 NOT_APPLICABLE = {
     "C02": "Every clause is about the numerical output of the ephemeris (sin/cos series, Newton steps, delta-T tables) evaluated at a concrete year against an external oracle (independent ephemeris / ICU, not present); no SMT theory covers the transcendental code and nothing symbolic is left once the year is concrete - deciding it would be enumeration of concrete runs, not solver-based checking (DESIGN.md §5).",
 }
-for p in ["C01","C03","C06","C08","C09","C10","C11","C12","C13","C14","C15","C16","C17","C18"]:
+for p in ["C08","C09","C10","C11","C12","C14","C15","C16","C18"]:
     NOT_APPLICABLE.setdefault(p, "check not built yet in this revision (work in progress; see DESIGN.md §9 build order)")
